@@ -209,7 +209,7 @@ def random_palette(rng):
             d["X"] = "blue"
             d["B"] = "green"
     elif kind == "badcolour":
-        d[rng.choice(common.AA)] = rng.choice(["pink", "", "rgb(1,2,3)", "#ff0000", "lack", "ray", "e", "red silver", " red", "red ", "gree"])
+        d[rng.choice(common.AA)] = rng.choice(["pink", "", "rgb(1,2,3)", "#ff0000", "lack", "ray", "e", "red silver", " red", "red ", "gree", "red\n", "\nred", "blue\r\n", "red\t", "green\x0b", "\u00a0red"])
     elif kind == "case":
         d[rng.choice(common.AA)] = rng.choice(["Red", "BLUE"])
     elif kind == "nonstring":
